@@ -2061,9 +2061,14 @@ impl KyroDbService for KyroDBServiceImpl {
 
         let engine = &self.state.engine;
 
-        // Fetch metadata first to enforce tenant/namespace checks without
-        // revealing existence via embedding lookup timing.
-        let internal_metadata = engine.get_metadata(global_doc_id).unwrap_or_default();
+        // Fetch metadata first to enforce tenant/namespace checks. The embedding is read in the
+        // same canonical snapshot: the response must pair a vector with the metadata of the same
+        // write, which two separate engine calls cannot guarantee under a concurrent overwrite.
+        let (snapshot_embedding, internal_metadata) =
+            match engine.get_document_with_metadata(global_doc_id) {
+                Some((embedding, metadata)) => (Some(embedding), metadata),
+                None => (None, HashMap::new()),
+            };
 
         if let Some(tenant) = &tenant {
             let expected = tenant.tenant_index.to_string();
@@ -2103,6 +2108,15 @@ impl KyroDbService for KyroDBServiceImpl {
         let start = Instant::now();
         match engine.query_with_source(global_doc_id, None) {
             Some((embedding, served_from)) => {
+                // `query_with_source` drives the cache / tier accounting; the pair returned to the
+                // client is the one read together above (or, for a document written since, a pair
+                // read together now).
+                let (embedding, internal_metadata) = match snapshot_embedding {
+                    Some(snapshot_embedding) => (snapshot_embedding, internal_metadata),
+                    None => engine
+                        .get_document_with_metadata(global_doc_id)
+                        .unwrap_or((embedding, internal_metadata)),
+                };
                 let latency_ns = start.elapsed().as_nanos() as u64;
                 let latency_ms = latency_ns as f64 / 1_000_000.0;
                 self.state.metrics.record_query_latency(latency_ns);
